@@ -1,6 +1,227 @@
-import Hgxv.Model.C03
-open C03
+import Hgxv.Proofs.C03Cor
+import Hgxv.Proofs.C03Ref
+/-! # C03 - TemporalHypergraph keeps (time, hyperedge) records; windows / snapshots / aggregate agree
 
-/-- queries never change the state (the model's `step` returns the state it was given) -/
+Model: `Hgxv/Model/C03.lean` (mirror of `hypergraphx/core/temporal_hypergraph.py` after the `fix:` commits of branch
+`wC03`).  `Reachable s` = `s` is the content of some slot after some finite history of well-formed public calls
+(`Op.WF`: every inserted hyperedge is a duplicate-free node tuple - the property quantifies over node SETS; nothing else
+is assumed, malformed calls included).  Hypotheses of the theorems are exactly `Reachable s` (or none).
+`get?`-statements are "equal as maps"; listings are compared as multisets (`List.Perm`) or membership + `Nodup`. -/
+open C03 AL
+
+/-- Invariant for every history, after every prefix (a prefix of a history is a history): in every object the edge index
+has distinct canonical keys, `_reverse_edge_list` is its inverse, ids are below `_next_edge_id`, `_weights` and
+`_edge_metadata` have exactly the live ids, `_adj[n]` is exactly the list of ids of the records containing `n` (each once,
+in creation order), every node of every record is a node, `_adj` and `_node_metadata` have the same keys, and an
+unweighted hypergraph only stores weight 1. -/
+theorem C03_inv (ops : List Op) (hwf : ∀ op ∈ ops, op.WF) : StateInv (run [] ops) :=
+  run_inv ops hwf [] (by intro p hp; cases hp)
+
+/-- **Refinement of the state.** Running any history of well-formed public calls on the concrete stores and then
+forgetting ids, reverse table and adjacency (`abs`: weightedness, nodes with metadata, the map
+`(time, node set) ↦ (weight, metadata)` in creation order, hypergraph metadata) gives exactly the result of running the
+same history on the abstract maps (`Spec.applyOp`: plain map updates).  Holds for every list, hence after every prefix. -/
+theorem C03_refines_state (ops : List Op) (hwf : ∀ op ∈ ops, op.WF) : absState (run [] ops) = specRun [] ops :=
+  run_abs ops hwf [] (by intro p hp; cases hp)
+
+/-- **Refinement of the outcomes.** After any history, a further public mutating call is accepted / rejected by the
+store exactly as by the map. -/
+theorem C03_refines_outcome (ops : List Op) (hwf : ∀ op ∈ ops, op.WF) (i : Nat) (o : SOp) (ho : o.WF) :
+    (step (run [] ops) (.on i o)).2 =
+      match get? (specRun [] ops) i with
+      | none => .out .rej
+      | some sp => .out (Spec.applyOp sp o).2 := by
+  rw [← C03_refines_state ops hwf]
+  exact step_out_abs _ (C03_inv ops hwf) i o ho
+
+/-- **Refinement of the queries.** After any history, every query (hyperedges with or without time window and
+order/size filter, counts, weights, times of a hyperedge, min/max time, incident hyperedges, neighbours, degrees, degree
+sequence/distribution, sizes, uniformity, all metadata getters, isolated nodes, snapshots, aggregate) is answered by the
+store exactly as by the map of the same history (`Spec.answer`: the same query code read off the map, where "incident to
+n" is "node set contains n").  Excluded: the two listings that expose internal edge ids. -/
+theorem C03_refines (ops : List Op) (hwf : ∀ op ∈ ops, op.WF) (i : Nat) (q : Query) (hq : q.exposesIds = false) :
+    (step (run [] ops) (.query i q)).2 =
+      match get? (specRun [] ops) i with
+      | none => .ans .rej
+      | some sp => .ans (Spec.answer sp q) := by
+  rw [← C03_refines_state ops hwf]
+  simp only [step, absState, get?_mapVals]
+  cases hg : get? (run [] ops) i with
+  | none => rfl
+  | some s =>
+    simp only [Option.map_some]
+    rw [answer_abs s (C03_inv ops hwf (i, s) (mem_of_get? _ _ _ hg)) q hq]
+
+/-- The record listing and the weight / metadata lookups of a reachable store ARE the key list and the values of the map
+of its history - so the statements below about `edgeKeys`, `weightOfKey`, `metaOfKey`, `s.nmeta` are statements about
+the map `(time, node set) ↦ (weight, metadata)` and its nodes. -/
+theorem C03_content_is_map (s : Store) (hs : Reachable s) :
+    edgeKeys s = keys (abs s).recs ∧ (keys (abs s).recs).Nodup ∧ s.nmeta = (abs s).nodes ∧
+    (∀ k, weightOfKey s k = (get? (abs s).recs k).map (·.1)) ∧ (∀ k, metaOfKey s k = (get? (abs s).recs k).map (·.2)) := by
+  have h := reachable_inv hs
+  exact ⟨(keys_records s).symm, by have hk : keys (abs s).recs = edgeKeys s := keys_records s; rw [hk]; exact h.keysNodup, rfl, weightOfKey_abs s h, metaOfKey_abs s h⟩
+
+/-- A time window `(a, b)` selects exactly the records with `a ≤ t < b` (membership). -/
+theorem C03_window (s : Store) (a b : Int) (k : Key) :
+    k ∈ window s a b ↔ k ∈ edgeKeys s ∧ a ≤ (k.1 : Int) ∧ (k.1 : Int) < b :=
+  mem_window s a b k
+
+/-- ... and with the same multiplicities: the windowed listing is a permutation of the filtered key list (so it is
+duplicate-free on every reachable store). -/
+theorem C03_window_listing (s : Store) (a b : Int) :
+    (window s a b).Perm ((edgeKeys s).filter (fun k => decide (a ≤ (k.1 : Int)) && decide ((k.1 : Int) < b))) :=
+  window_perm s a b
+
+/-- `get_edges(time_window=(a,b), order|size, up_to)`: rejected iff both `order` and `size` are given; otherwise the
+records in the window whose size passes the filter (`size = k` is `order = k-1`; `up_to` is `≤`). -/
+theorem C03_get_edges_window (s : Store) (a b : Int) (f : Filt) :
+    (f.order.isSome ∧ f.size.isSome → getEdges s (.pair a b) f = none) ∧
+    (¬ (f.order.isSome ∧ f.size.isSome) → ∃ l, getEdges s (.pair a b) f = some l ∧ ∀ k, k ∈ l ↔
+      (k ∈ edgeKeys s ∧ a ≤ (k.1 : Int) ∧ (k.1 : Int) < b ∧
+        ∀ o, effOrder f.order f.size = some o →
+          if f.upTo then ((k.2.length : Int) - 1 ≤ o) else ((k.2.length : Int) - 1 = o))) := by
+  constructor
+  · intro h; simp [getEdges, V.getEdges, h.1, h.2]
+  · intro h
+    have hb : (f.order.isSome && f.size.isSome) = false := by
+      cases h1 : f.order.isSome <;> cases h2 : f.size.isSome <;> simp_all
+    refine ⟨applyFilt f (window s a b), by simp [getEdges, V.getEdges, view, window, hb], ?_⟩
+    intro k
+    rw [mem_applyFilt, mem_window]
+    constructor
+    · rintro ⟨⟨h1, h2, h3⟩, h4⟩
+      exact ⟨h1, h2, h3, fun o ho => (passes_iff o f.upTo k).mp (h4 o ho)⟩
+    · rintro ⟨h1, h2, h3, h4⟩
+      exact ⟨⟨h1, h2, h3⟩, fun o ho => (passes_iff o f.upTo k).mpr (h4 o ho)⟩
+
+/-- `get_times_for_edge(e)` lists exactly the times at which the node set of `e` has a record (node order irrelevant). -/
+theorem C03_times_for_edge (s : Store) (raw : List Nat) (t : Nat) :
+    t ∈ timesFor s raw ↔ (t, canon raw) ∈ edgeKeys s :=
+  mem_timesFor s raw t
+
+/-- `min_time()` / `max_time()`: `±inf` (`none`) exactly when there is no record, else the least / largest recorded time. -/
+theorem C03_min_max_time (s : Store) :
+    ((minTime s = none ↔ edgeKeys s = []) ∧
+      ∀ m, minTime s = some m → (∃ k ∈ edgeKeys s, k.1 = m) ∧ ∀ k ∈ edgeKeys s, m ≤ k.1) ∧
+    ((maxTime s = none ↔ edgeKeys s = []) ∧
+      ∀ m, maxTime s = some m → (∃ k ∈ edgeKeys s, k.1 = m) ∧ ∀ k ∈ edgeKeys s, k.1 ≤ m) :=
+  ⟨minTime_spec s, maxTime_spec s⟩
+
+/-- Per-time snapshots (`subhypergraph(time_window)`): a window that is not a tuple is rejected; otherwise the call
+succeeds, a time `t` is a key iff it lies in the window and some record has time `t`, and the hypergraph of `t` has the
+weightedness of the temporal hypergraph and exactly the node sets recorded at `t`, each with the record's weight. -/
+theorem C03_snapshot (s : Store) (hs : Reachable s) (w : Win) :
+    (w = .bad → snapshots s w = none) ∧
+    (∀ a b, (w = .none ∧ a = none ∧ b = none) ∨ (∃ x y, w = .pair x y ∧ a = some x ∧ b = some y) →
+      ∃ r, snapshots s w = some r ∧
+        (∀ t, (get? r t).isSome ↔ (insideOpt a b t = true ∧ ∃ k ∈ edgeKeys s, k.1 = t)) ∧
+        (∀ t h, get? r t = some h → h.weighted = s.weighted ∧
+          (∀ e, (get? h.edges e).isSome ↔ (t, e) ∈ edgeKeys s) ∧
+          (∀ e, (t, e) ∈ edgeKeys s → (get? h.edges e).map (·.1) = weightOfKey s (t, e)))) := by
+  constructor
+  · intro h; subst h; rfl
+  · intro a b hab
+    have ok := keysOK_of_inv s (reachable_inv hs)
+    obtain ⟨r, hr, h1, h2⟩ := snapshots_spec s ok a b
+    simp only [snapshots, V.snapshots, view, snapshotsOf]
+    refine ⟨r, ?_, h1, h2⟩
+    rcases hab with ⟨hw, ha, hb⟩ | ⟨x, y, hw, ha, hb⟩
+    · subst hw ha hb; exact hr
+    · subst hw ha hb; exact hr
+
+/-- `aggregate(w)` is rejected when `w` is not an integer or `w ≤ 0`. -/
+theorem C03_aggregate_rejects (s : Store) (w : TimeArg) (hw : w = .bad ∨ ∃ i, w = .int i ∧ i ≤ 0) :
+    aggregate s w = none := by
+  rcases hw with h | ⟨i, h, hi⟩
+  · subst h; rfl
+  · subst h
+    have : ¬ 0 < i := by omega
+    simp [aggregate, V.aggregate, aggregateOf, this]
+
+/-- `aggregate(w)`, `w` a positive integer, on a reachable store: without records the result is empty; otherwise, with
+`M` the maximal time, the result has exactly the indices `0..⌊M/w⌋`, and the hypergraph of index `j` has the weightedness
+of the temporal hypergraph, ALL its nodes with their metadata (and no other node), exactly the node sets having a record
+with `j·w ≤ t < (j+1)·w`, each weighing the sum of the weights of those records when weighted and 1 otherwise. -/
+theorem C03_aggregate (s : Store) (hs : Reachable s) (i : Int) (hi : 0 < i) :
+    (edgeKeys s = [] → aggregate s (.int i) = some []) ∧
+    (∀ M, maxTime s = some M → ∃ res, aggregate s (.int i) = some res ∧
+      res.map (·.1) = List.range (M / i.toNat + 1) ∧
+      ∀ j h, (j, h) ∈ res →
+        h.weighted = s.weighted ∧
+        (∀ n, get? h.nodes n = get? s.nmeta n) ∧
+        (∀ e, (get? h.edges e).isSome ↔ ∃ t, (t, e) ∈ edgeKeys s ∧ j * i.toNat ≤ t ∧ t < (j + 1) * i.toNat) ∧
+        (∀ e v, get? h.edges e = some v →
+          v.1 = if s.weighted then (recWeights s (windowRecs s i.toNat j) e).sum else one)) := by
+  have hinv := reachable_inv hs
+  obtain ⟨h1, h2⟩ := aggregate_spec s (keysOK_of_inv s hinv) (nodesOK_of_inv s hinv) i hi
+  refine ⟨h1, ?_⟩
+  intro M hM
+  obtain ⟨res, hr, hmap, hall⟩ := h2 M hM
+  exact ⟨res, hr, hmap, fun j h hm => ⟨(hall j h hm).weighted, (hall j h hm).nodes, (hall j h hm).edges, (hall j h hm).weights⟩⟩
+
+/-- None of the derivations (any query: listings, windows, times, min/max, snapshots, aggregate, degrees, metadata)
+changes the temporal hypergraph: in the model a query step returns the state it was given (the code side of this
+claim is the before/after digest comparison of the harness). -/
 theorem C03_pure (st : State) (i : Nat) (q : Query) : (step st (.query i q)).1 = st := by
   simp only [step]; split <;> rfl
+
+/-- Non-integer or negative times are rejected and leave the object untouched - single insertions and whole batches. -/
+theorem C03_time_rejected (s : Store) (t : TimeArg) (ht : t = .bad ∨ ∃ i, t = .int i ∧ i < 0) :
+    (∀ raw w md, addEdge s raw t w md = (s, .rej)) ∧
+    (∀ raws ts ws mds, t ∈ ts → addEdges s raws ts ws mds = (s, .rej)) :=
+  ⟨fun raw w md => addEdge_bad_time s raw t w md ((validTime_none_iff t).mpr ht),
+   fun raws ts ws mds hm => addEdges_bad_time s raws ts ws mds t hm ((validTime_none_iff t).mpr ht)⟩
+
+/-- Every rejected call - single or batched - is a no-op on the whole state. -/
+theorem C03_rejected_noop (st : State) (i : Nat) (o : SOp) (hr : (step st (.on i o)).2 = .out .rej) :
+    (step st (.on i o)).1 = st :=
+  step_rej st i o hr
+
+/-- The order in which the nodes of a hyperedge are given is irrelevant for insertion, removal and every lookup. -/
+theorem C03_order_irrelevant (s : Store) (r1 r2 : List Nat) (h : r1.Perm r2) (t : TimeArg) :
+    (∀ w md, addEdge s r1 t w md = addEdge s r2 t w md) ∧ removeEdge s r1 t = removeEdge s r2 t ∧
+    idOf s r1 t = idOf s r2 t ∧ timesFor s r1 = timesFor s r2 :=
+  ⟨fun w md => addEdge_perm s r1 r2 h t w md, removeEdge_perm s r1 r2 h t, idOf_perm s r1 r2 h t,
+   by simp [timesFor, V.timesFor, canon_eq_of_perm r1 r2 h]⟩
+
+/-- On a reachable store `get_incident_edges(n)` is exactly the list of records containing `n` (creation order), each
+once; hence `degree(n)` counts every record once. -/
+theorem C03_incident_once (s : Store) (hs : Reachable s) (n : Node) (hn : (get? s.adj n).isSome) :
+    incident s n none none = some ((edgeKeys s).filter (fun k => k.2.contains n)) ∧
+    ((edgeKeys s).filter (fun k => k.2.contains n)).Nodup ∧
+    degree s n none none = some ((edgeKeys s).filter (fun k => k.2.contains n)).length := by
+  have hinv := reachable_inv hs
+  have h1 := incident_eq s hinv n hn
+  exact ⟨h1, hinv.keysNodup.filter _, by simp only [degree, V.degree]; rw [show V.incident (view s) n none none = incident s n none none from rfl, h1]; rfl⟩
+
+/-- Re-inserting an existing `(time, node set)` record: accepted; the key set is unchanged; weighted: the weights add;
+unweighted: the weight stays; the metadata is replaced. -/
+theorem C03_reinsert (s : Store) (raw : List Nat) (t : Nat) (w : Option Int) (md : Option Meta) (id : Nat)
+    (hget : get? s.edgeList (t, canon raw) = some id) (hok : s.weighted = true ∨ w = none ∨ w = some one) :
+    (addEdge s raw (.int t) w md).2 = .ok ∧
+    (addEdge s raw (.int t) w md).1.edgeList = s.edgeList ∧
+    (addEdge s raw (.int t) w md).1.weights =
+      (if s.weighted then AL.set s.weights id (((get? s.weights id).getD 0) + w.getD one) else s.weights) ∧
+    (addEdge s raw (.int t) w md).1.emeta = AL.set s.emeta id (md.getD []) :=
+  addEdge_existing s raw t w md id hget hok
+
+/-! ## non-vacuity: the hypotheses hold on a concrete non-trivial history (`demoOps`: 13 calls with a re-insertion in
+permuted node order, two rejected times, a copy, a removal, a shrink-merge by `remove_node(keep_edges=True)`, a weighted
+batch) and the conclusions are the expected concrete values -/
+
+example : ∀ op ∈ demoOps, op.WF := by decide
+example : get? (run [] demoOps) 0 = some demoStore := by decide
+example : Reachable demoStore := ⟨demoOps, by decide, 0, by decide⟩
+example : StateInv (run [] demoOps) := C03_inv demoOps (by decide)
+example : edgeKeys demoStore = [(0, [1, 2]), (3, [1, 2]), (4, [1, 5]), (5, [2, 3])] := by decide
+example : window demoStore 3 5 = [(3, [1, 2]), (4, [1, 5])] := by decide
+example : maxTime demoStore = some 5 ∧ minTime demoStore = some 0 ∧ timesFor demoStore [2, 1] = [0, 3] := by decide
+example : weightOfKey demoStore (3, [1, 2]) = some 12 := by decide
+example : ∃ res, aggregate demoStore (.int 2) = some res ∧ res.map (·.1) = [0, 1, 2] := by
+  obtain ⟨res, h1, h2, _⟩ := (C03_aggregate demoStore ⟨demoOps, by decide, 0, by decide⟩ 2 (by decide)).2 5 (by decide)
+  exact ⟨res, h1, by rw [h2]; decide⟩
+example : (step [(0, demoStore)] (.on 0 (.addEdge [1] (.int (-1)) none none))).2 = .out .rej := by decide
+example : (get? demoStore.adj 1).isSome = true := by decide
+example : get? (specRun [] demoOps) 0 = some (abs demoStore) := by decide
+example : (abs demoStore).recs = [((0, [1, 2]), (8, [])), ((3, [1, 2]), (12, [])), ((4, [1, 5]), (4, [])), ((5, [2, 3]), (2, []))] := by decide
+example : Spec.answer (abs demoStore) (.degree 1 none none) = .int 3 ∧ answer demoStore (.degree 1 none none) = .int 3 := by decide
